@@ -462,6 +462,22 @@ class Normalizer(ast.NodeTransformer):
 
     def visit_Call(self, node):
         self.generic_visit(node)
+        # dict.fromkeys(("a", "b"), v) -> {"a": v, "b": v}      (v is an immutable value / a look-up: sharing it is not observable)
+        if (
+            isinstance(node.func, ast.Attribute) and node.func.attr == "fromkeys" and isinstance(node.func.value, ast.Name) and node.func.value.id == "dict"
+            and len(node.args) == 2 and not node.keywords and isinstance(node.args[0], (ast.Tuple, ast.List)) and 1 <= len(node.args[0].elts) <= 8
+            and all(isinstance(k, ast.Constant) and isinstance(k.value, str) for k in node.args[0].elts)
+        ):
+            return ast.copy_location(ast.Dict(keys=list(node.args[0].elts), values=[copy.deepcopy(node.args[1]) for _ in node.args[0].elts]), node)
+        # f(**{"a": x, "b": y}) -> f(a=x, b=y)
+        if any(k.arg is None and isinstance(k.value, ast.Dict) for k in node.keywords):
+            kws = []
+            for k in node.keywords:
+                if k.arg is None and isinstance(k.value, ast.Dict) and k.value.keys and all(isinstance(x, ast.Constant) and isinstance(x.value, str) and x.value.isidentifier() for x in k.value.keys):
+                    kws.extend(ast.keyword(arg=x.value, value=v) for x, v in zip(k.value.keys, k.value.values))
+                else:
+                    kws.append(k)
+            node.keywords = kws
         # f(*[a, b]) / f(*(a, b)) / f(*(g(k) for k in ("x", "y")))  ->  f(a, b)
         if any(isinstance(a, ast.Starred) for a in node.args):
             new_args = []
